@@ -40,6 +40,8 @@ DATA_CARRIERS_EXTRA = ["ma_junk", "list_masked"]
 TIME_CARRIERS = [
     "dt64ns", "dt64s", "dt64ms", "pydt", "stamps", "dtindex", "series_naive", "series_utc",
     "dtindex_utc", "epoch_int", "epoch_float",
+    # pandas objects whose stored unit is not ns (the default for objects built from datetimes in pandas >= 3)
+    "dtindex_us", "dtindex_s", "series_ms", "series_us_idx", "dtindex_us_utc",
 ]
 
 
@@ -90,6 +92,9 @@ def mk_data(vals, carrier="nd_f8"):
     if carrier == "nd_i8":
         assert all(v is not None and Fraction(v).denominator == 1 for v in vals)
         return np.array([int(v) for v in vals], dtype=np.int64)
+    if carrier == "nd_u2":
+        assert all(v is not None and Fraction(v).denominator == 1 and 0 <= v < 65536 for v in vals)
+        return np.array([int(v) for v in vals], dtype=np.uint16)
     if carrier == "nd_obj":
         return np.array([None if v is None else float(v) for v in vals], dtype=object)
     if carrier == "ma_nan":
@@ -137,6 +142,16 @@ def mk_time(secs, carrier="dt64ns"):
         return pd.Series(pd.DatetimeIndex(a).tz_localize("UTC"))
     if carrier == "dtindex_utc":
         return pd.DatetimeIndex(a).tz_localize("UTC")
+    if carrier == "dtindex_us":
+        return pd.DatetimeIndex(a.astype("datetime64[us]"))
+    if carrier == "dtindex_s":
+        return pd.DatetimeIndex(a.astype("datetime64[s]"))
+    if carrier == "series_ms":
+        return pd.Series(a.astype("datetime64[ms]"))
+    if carrier == "series_us_idx":
+        return pd.Series(a.astype("datetime64[us]"), index=[10 + 3 * i for i in range(len(a))][::-1])
+    if carrier == "dtindex_us_utc":
+        return pd.DatetimeIndex(a.astype("datetime64[us]")).tz_localize("UTC")
     if carrier == "epoch_int":
         return [int(s) for s in secs]
     if carrier == "epoch_float":
@@ -166,6 +181,17 @@ def mk_time_ns(ns_list, carrier="dt64ns"):
         return pd.Series(pd.DatetimeIndex(a).tz_localize("UTC"))
     if carrier == "dtindex_utc":
         return pd.DatetimeIndex(a).tz_localize("UTC")
+    if carrier in ("dtindex_us", "series_us_idx", "dtindex_us_utc"):
+        assert all(int(v) % 1000 == 0 for v in ns_list)
+        u = a.astype("datetime64[us]")
+        if carrier == "dtindex_us":
+            return pd.DatetimeIndex(u)
+        if carrier == "dtindex_us_utc":
+            return pd.DatetimeIndex(u).tz_localize("UTC")
+        return pd.Series(u, index=[10 + 3 * i for i in range(len(u))][::-1])
+    if carrier == "series_ms":
+        assert all(int(v) % 1_000_000 == 0 for v in ns_list)
+        return pd.Series(a.astype("datetime64[ms]"))
     if carrier == "epoch_float":
         return np.array([int(v) / 1e9 for v in ns_list], dtype=np.float64)
     if carrier == "epoch_float_list":
@@ -174,7 +200,7 @@ def mk_time_ns(ns_list, carrier="dt64ns"):
 
 
 SUBSECOND_TIME_CARRIERS = ["dt64ns", "dt64ms", "pydt", "stamps", "dtindex", "series_naive", "series_utc", "dtindex_utc",
-                           "epoch_float", "epoch_float_list"]
+                           "epoch_float", "epoch_float_list", "dtindex_us", "series_us_idx", "dtindex_us_utc", "series_ms"]
 
 
 def mk_span(arg, kind="list"):
